@@ -269,6 +269,19 @@ inline std::vector<Family> jsonFamilies() {
   add("arr-sib", [](size_t d) { return closedText(rep("[[],", d) + "1" + rep("]", d)); });
   add("arr-lead", [](size_t d) { return closedText(rep("[1,", d) + "2" + rep("]", d)); });
   add("obj-lead", [](size_t d) { return closedText(rep("{\"b\":[],\"a\":", d) + "2" + rep("}", d)); });
+  // NON-empty containers closed before the deeper sibling opens (a level taken by a closed container must be given back)
+  add("arr-sib-ne", [](size_t d) { return closedText(rep("[[0],", d) + "1" + rep("]", d)); });
+  add("arr-sib-obj", [](size_t d) { return closedText(rep("[{\"b\":0},", d) + "1" + rep("]", d)); });
+  add("obj-lead-ne", [](size_t d) { return closedText(rep("{\"b\":{\"c\":0},\"a\":", d) + "2" + rep("}", d)); });
+  add("obj-lead-arr", [](size_t d) { return closedText(rep("{\"b\":[0,[1]],\"a\":", d) + "2" + rep("}", d)); });
+  add("arr-sib-deep", [](size_t d) { return d ? closedText(rep("[[0],", d - 1) + "[[[0]],1]" + rep("]", d - 1)) : noText(); });
+  // many members / elements in front of the nested one (a limit that is consumed per sibling, 8-bit counters)
+  add("arr-many", [](size_t d) { return closedText(rep("[" + rep("0,", 15), d) + "1" + rep("]", d)); });
+  add("obj-many", [](size_t d) {
+    std::string unit = "{";
+    for (int i = 0; i < 15; i++) unit += "\"k" + std::to_string(i) + "\":null,";
+    return closedText(rep(unit + "\"a\":", d) + "2" + rep("}", d));
+  });
   // malformed at the bottom: InvalidInput unless the limit is hit first
   add("arr-bad", [](size_t d) { return openText(rep("[", d) + "!"); });
   return F;
@@ -319,6 +332,23 @@ inline std::vector<Family> msgpackFamilies() {
   add("fixmap-empty", [](size_t d) { return d ? closedText(rep(B({0x81, 0xa1, 'a'}), d - 1) + B({0x80})) : noText(); });
   add("fixarray-lead", [](size_t d) { return closedText(rep(B({0x92, 0xc0}), d) + B({0xc0})); });
   add("fixarray-sib", [](size_t d) { return closedText(rep(B({0x92, 0x90}), d) + B({0xc0})); });
+  // maps with a member in front of the nested one, for every header family: scalar, empty and non-empty containers
+  struct MapKind { const char* name; std::string header2; };
+  std::vector<MapKind> mkinds = {{"fixmap", B({0x82})}, {"map16", B({0xde, 0, 2})}, {"map32", B({0xdf, 0, 0, 0, 2})}};
+  for (auto& mk : mkinds) {
+    std::string h = mk.header2;
+    add(std::string(mk.name) + "-lead", [h](size_t d) { return closedText(rep(h + B({0xa1, 'b', 0xc0, 0xa1, 'a'}), d) + B({0xc0})); });
+    add(std::string(mk.name) + "-sib", [h](size_t d) { return closedText(rep(h + B({0xa1, 'b', 0x90, 0xa1, 'a'}), d) + B({0xc0})); });
+    add(std::string(mk.name) + "-sib-ne", [h](size_t d) { return closedText(rep(h + B({0xa1, 'b', 0x81, 0xa1, 'c', 0x01, 0xa1, 'a'}), d) + B({0xc0})); });
+  }
+  add("fixarray-sib-ne", [](size_t d) { return closedText(rep(B({0x92, 0x91, 0x00}), d) + B({0xc0})); });
+  add("fixmap-many", [](size_t d) {
+    std::string unit = B({0xde, 0, 16});
+    for (int i = 0; i < 15; i++) unit += B({0xa2, 'k', static_cast<unsigned char>('a' + i), 0xc0});
+    unit += B({0xa1, 'a'});
+    return closedText(rep(unit, d) + B({0xc0}));
+  });
+  add("fixarray-many", [](size_t d) { return closedText(rep(B({0xdc, 0, 16}) + std::string(15, char(0xc0)), d) + B({0xc0})); });
   add("array32-huge-open", [](size_t d) { return openText(rep(B({0xdd, 0xff, 0xff, 0xff, 0xff}), d)); });
   // malformed at the bottom: a map whose key is not a string
   add("fixmap-badkey", [](size_t d) { return d ? openText(rep(B({0x81, 0xa1, 'a'}), d - 1) + B({0x81, 0x01, 0xc0})) : noText(); });
@@ -443,6 +473,7 @@ inline void runDepth(Ctx& C) {
   std::vector<Family> fams = jsonFamilies();
   for (auto& f : msgpackFamilies()) fams.push_back(f);
   std::string onlyFam = C.opt("fam");
+  const bool defaultOnly = C.flag("default-limit-only");  // builds with another ARDUINOJSON_DEFAULT_NESTING_LIMIT: only the no-option calls
   uint64_t calls = 0, texts = 0;
   size_t nJson = 0, nMp = 0;
   for (auto& f : fams) (f.msgpack ? nMp : nJson)++;
@@ -465,7 +496,7 @@ inline void runDepth(Ctx& C) {
         Scan sc;
         JsonDocument fdoc;
         bool prepared = false;
-        for (int Li = 0; Li <= 256; Li++) {
+        for (int Li = (defaultOnly ? 256 : 0); Li <= 256; Li++) {
           const int Lopt = Li == 256 ? -1 : Li;
           const size_t L = Li == 256 ? size_t(ARDUINOJSON_DEFAULT_NESTING_LIMIT) : size_t(Li);
           // diagonal-only depths (quick tier): only the limits around the depth of the input (wrappers and siblings add up to 4 levels)
